@@ -218,8 +218,19 @@ func parent(a []string) int {
 				res.ViolationsN++
 			}
 		} else {
-			fmt.Printf("HARNESS-ERROR property=%s child died outside a journalled case (%v)\n%s\n", id, runErr, logTail)
-			return 3
+			// a race build: reports written before the process died still count (a crash is often the second symptom of the race)
+			raceSeen := false
+			if e.Race {
+				for _, rp := range racelog.Parse(workdir, "race") {
+					raceSeen = raceSeen || rp.Relevant
+				}
+			}
+			if !raceSeen {
+				fmt.Printf("HARNESS-ERROR property=%s child died outside a journalled case (%v)\n%s\n", id, runErr, logTail)
+				return 3
+			}
+			res = fw.Result{Property: id, Tier: tier, Seed: seed}
+			res.Notes = append(res.Notes, "the child process died before it finished ("+crashKind(logTail)+"); the race reports it had written are judged")
 		}
 	}
 
